@@ -327,6 +327,25 @@ def extract_fn(item, opts, blocks, rewrites_log, as_stub=False):
                 while e < bodye and tk(e)[1] != '{': e += 1
                 # tokens q+7 .. e-1 must end with . iter|iter_mut ( ) . enumerate ( )
                 tail = [tk(i)[1] for i in range(e - 8, e)]
+                tail9 = [tk(i)[1] for i in range(e - 9, e)]
+                if len(tail9) == 9 and tail9[0] == '.' and tail9[1] == 'chunks_mut' and tail9[2] == '(' and tk(e - 6)[0] == 'id' and tail9[4:] == [')', '.', 'enumerate', '(', ')'] and e - 9 > q + 6:
+                    # R4c: `for (J, P) in X.chunks_mut(N).enumerate() { B }` -> `for J in verif_it: 0..verif_chunk_count(X.len(), N) { let P = verif_chunk_mut(X, J, N); B }`
+                    # (std semantics of chunks_mut: ceil(len/N) chunks of N elements, the last one shorter; N == 0 panics)
+                    xexpr = text[tk(q + 7)[2]:tk(e - 10)[3]]
+                    iv = tk(q + 2)[1]; pv = tk(q + 4)[1]; nexpr = tk(e - 6)[1]
+                    cb = match_close(toks, ci, e)
+                    nloop_b += 1
+                    s0 = tk(q)[2]; e0 = tk(e)[3]
+                    new = ('for %s in verif_it: 0..verif_chunk_count(%s.len(), %s) %s{%s let %s = verif_chunk_mut(%s, %s, %s);'
+                           % (iv, xexpr, nexpr, G('iterloop %d' % nloop_b, '\n' + blocks.get('iterloop %d' % nloop_b, '').rstrip() + '\n'),
+                              G('iterbody %d' % nloop_b, '\n' + blocks.get('iterbody %d' % nloop_b, '').rstrip() + '\n') if blocks.get('iterbody %d' % nloop_b) else '',
+                              pv, xexpr, iv, nexpr))
+                    edits.append((s0, e0, R('4', text[s0:e0], new)))
+                    pos = tk(cb)[2]
+                    edits.append((pos, pos, G('iterend %d' % nloop_b, '\n' + blocks.get('iterend %d' % nloop_b, '').rstrip() + '\n')))
+                    r4_spans.append((s0, e0))
+                    rewrites_log.append({'rule': 'R4', 'fn': item.name, 'before': re.sub(r'\s+', ' ', text[s0:e0])[:200], 'after': re.sub(r'/\*@G.*?\*/.*?/\*@/G\*/', '', new, flags=re.S)[:200]})
+                    q = e + 1; continue
                 if len(tail) == 8 and tail[0] == '.' and tail[1] in ('iter', 'iter_mut') and tail[2:] == ['(', ')', '.', 'enumerate', '(', ')'] and e - 8 > q + 6:
                     xexpr = text[tk(q + 7)[2]:tk(e - 9)[3]]
                     iv = tk(q + 2)[1]; pv = tk(q + 4)[1]; mut = tail[1] == 'iter_mut'
